@@ -125,17 +125,6 @@ def nontrivial(line):
     return t[-1] != b"2" if t[0] == b"2" else True
 
 
-def clause(d):
-    if len(d) >= 3 and d[0] == 902 and d[1] not in CLAUSES:
-        return d[2]
-    if len(d) >= 3 and d[0] == 902 and d[1] in (0,) and d[2] in CLAUSES:
-        return d[2]
-    if len(d) >= 2 and d[0] == 902:
-        # timeline: [902, index, clause, ...]; verifier/dial: [902, clause, ...]
-        return d[2] if len(d) >= 3 and d[2] in CLAUSES and d[1] < 10 and d[2] < 10 else d[1]
-    return -1
-
-
 def key(tag, toks, d):
     # identity = clause + call site + the canonical minimal input class
     if toks[0] in (2, 3) and len(d) >= 2:
